@@ -351,7 +351,23 @@ static void history(vt::Rng& r, int nops) {
           } else if (op == "widen16") {
             Image wide(dst);
             wide.set_channel_width(16);
-            px = px_json(wide);
+            // the wide canvas also arrives in objects that were something else before: move- and copy-assigned onto live
+            // 8-bit canvases of another size / alpha mode, and swapped with one
+            unsigned how = (unsigned)r.below(4);
+            if (how == 1) {
+              Image live(r.below(4), r.below(4), r.chance(50));
+              live = std::move(wide);
+              px = px_json(live);
+            } else if (how == 2) {
+              Image live(r.below(4), r.below(4), r.chance(50));
+              live = wide;
+              px = px_json(live);
+            } else if (how == 3) {
+              Image live(r.below(4), r.below(4), r.chance(50));
+              std::swap(live, wide);
+              px = px_json(live);
+            } else
+              px = px_json(wide);
           }
         });
         if (evop == "skip") break;
